@@ -155,6 +155,20 @@ def run(chk):
             chk.ob("C05-D4.layout", f.key, "gradient accumulation @%d %s" % (n.get("l", 0), txt(lhs)), bool(ok), f.loc(n),
                    "index form %s, derivative index %s, coefficient index %s" % (form, dvar[:1], svar[:1]), "y[output * num_dimensions + dim]")
     chk.floor("C05-D4.layout", nlay, 2, "gradient accumulation sites in the tree walk")
+    # ------------------------------------------------------------------ D5 product rule across dimensions
+    chk.rule("C05-D5.product", "the per-basis gradient is assembled by the product rule: for num_dimensions = 1..4 the loop nest is folded with the one-dimensional values / derivatives as symbols "
+                               "(tagged with the indexes that address them) and component j must equal D_j * prod_{k != j} V_k")
+    from rules import product
+    nprod = 0
+    for name in ("TasGrid::GridSequence::differentiate", "TasGrid::GridSequence::getDifferentiationWeights", "TasGrid::GridGlobal::getDifferentiationWeights",
+                 "TasGrid::GridWavelet::evalDiffBasis", "TasGrid::GridLocalPolynomial::diffBasisSupported"):
+        fs = db.fns(name, required=False)
+        got = sum(product.product_rule(chk, db, "C05-D5.product", f) for f in fs)
+        if not got:
+            raise AnalysisBroken("C05-D5: the gradient accumulation of %s is no longer in a foldable form" % name)
+        nprod += got
+    chk.floor("C05-D5.product", nprod, 30, "folded product-rule nests (function x dimension)")
+
     # the chain-rule clauses are the same obligations as in C10: evaluate them here as well
     from rules import c10
     from tsg.report import Check
@@ -169,5 +183,5 @@ def run(chk):
     chk.floor("C05-D3.chain", nchain, 6, "chain-rule obligations shared with C10")
 
     return ("Static rule discharge (R-SYMBOLIC by partial evaluation of loop-free basis routines into sympy closed forms, for every instantiated rule and point class 0..12): the derivative "
-            "routines are the derivatives of the value routines, including the support map; argument agreement of the high-order paths; row-major layout of the gradient accumulation. "
+            "routines are the derivatives of the value routines, including the support map; argument agreement of the high-order paths; row-major layout of the gradient accumulation; the product rule across dimensions of the Sequence, Global, Wavelet and Local Polynomial gradient nests folded for 1-4 dimensions. "
             "The assembled multi-dimensional derivative of Global/Sequence/Fourier/Wavelet grids (Lagrange caches, quotient rules, derivative tables) is algorithmic and not decided.")
